@@ -426,7 +426,7 @@ def run_values(ctx, suite, vals, exe, model_idx=None):
         ctx.bump('negation-pairs')
         if tp[1:] != tn[1:] or tp[0] != ' ' or tn[0] != '-':
             fp, fn = form_of(tp), form_of(tn)
-            if ty == 3 and fp != 'exp' and fn != 'exp' and expected_neg_loses_digit(v, tn):
+            if ty == 3 and fp != 'exp' and expected_neg_loses_digit(v, tn):
                 sig = 'C16/single-negative-loses-digit'
             else:
                 sig = f'C16/negation-differs({TYN[ty]},{fp},{fn})'
@@ -522,7 +522,8 @@ def judge_value(ctx, suite, tag, ty, v, case, raw, mo, ys):
                     bad = True
                     if ty == 4 and 'D' in t and path in ('READ', 'INPUT') and nr in ([1], [3]):
                         sig = f'C16/double-D-marker-unreadable({path})'
-                    elif (path == 'VAL' and form == 'int' and abs(v) >= 2 ** 31 and nr == [1, 7]):
+                    elif (path == 'VAL' and form == 'int' and nr == [1, 7]
+                          and not (-2 ** 31 <= dec_value(*parsed) <= 2 ** 31 - 1)):
                         sig = f'C16/val-host-SyntaxError(integer-text-beyond-LONG,{TYN[ty]})'
                     else:
                         sig = f'C16/readback-fails({path},{TYN[ty]},{form},{json.dumps(r[:2])})'
@@ -636,15 +637,16 @@ def run_programs(ctx, tier, texts_by_value):
           (3, sgl(1234.5678)), (3, sgl(-1234.5678)), (3, sgl(1.5e-5)), (3, sgl(1e20)), (3, sgl(3e9)),
           (3, sgl(0.000123456)), (3, 16777216.0), (3, sgl(3.4e38)), (3, f32(1))]
     picks += ints + fl
-    n_extra = 10 if tier == 'quick' else 120
+    n_extra = 5 if tier == 'quick' else 100
+    prng = frng(ctx, 'programs')
     for _ in range(n_extra):
-        picks.append((1, ctx.rng.randint(-32768, 32767)))
-        picks.append((2, ctx.rng.randint(-2 ** 31, 2 ** 31 - 1)))
-        x = ctx.rng.uniform(-1, 1) * 10.0 ** ctx.rng.randint(-8, 18)
+        picks.append((1, prng.randint(-32768, 32767)))
+        picks.append((2, prng.randint(-2 ** 31, 2 ** 31 - 1)))
+        x = prng.uniform(-1, 1) * 10.0 ** prng.randint(-8, 18)
         picks.append((4, x))
-        picks.append((3, sgl(ctx.rng.uniform(-1, 1) * 10.0 ** ctx.rng.randint(-8, 18))))
-        picks.append((4, bf(ctx.rng.getrandbits(64))))
-        picks.append((3, f32(ctx.rng.getrandbits(32))))
+        picks.append((3, sgl(prng.uniform(-1, 1) * 10.0 ** prng.randint(-8, 18))))
+        picks.append((4, bf(prng.getrandbits(64))))
+        picks.append((3, f32(prng.getrandbits(32))))
     picks = [(ty, v) for ty, v in picks if ty < 3 or finite(v)]
     # the text of each value, from the real format_number
     traw = vlib.run_impl('numtextfn.fmt', [[ty, v if ty < 3 else fb(v)] for ty, v in picks])
@@ -707,16 +709,21 @@ def judge_program(ctx, c, raw):
     if clean and back == first:
         return
     # the value did not come back with the same digits
-    if ty == 4 and 'D' in t and path in ('READ', 'INPUT') and back is None:
+    if path == 'INPUT':
+        failed = raw['status'] == 'input-exhausted' and 'Redo from start' in raw['out']
+    elif path == 'READ':
+        failed = raw['outcome'][1] == 'DEVICE_ERROR'
+    else:
+        failed = bool(raw['exc']) and raw['exc'][0] == 'SyntaxError'
+    if ty == 4 and 'D' in t and path in ('READ', 'INPUT') and failed:
         sig = f'C16/double-D-marker-unreadable({path})'
-    elif (path == 'VAL' and ty >= 3 and form == 'int' and abs(v) >= 2 ** 31 and raw['exc']
-          and raw['exc'][0] == 'SyntaxError'):
+    elif (path == 'VAL' and ty >= 3 and form == 'int' and failed and parse_text(t) is not None
+          and not (-2 ** 31 <= dec_value(*parse_text(t)) <= 2 ** 31 - 1)):
         sig = f'C16/val-host-SyntaxError(integer-text-beyond-LONG,{TYN[ty]})'
     elif ty == 3 and back is not None and clean:
-        # read back fine but prints differently: only tolerated when the second text is
-        # one of the unrounded exponent forms (D22) of a value that agrees to the precision shown
+        # read back fine but prints differently: tolerated only when the second text is one
+        # of the unrounded exponent forms (D22) of the value read back
         p = parse_text(back.rstrip(' '))
-        pv, _ = py_verdict(v, t)
         if p is not None and form_of(back) == 'exp' and len(str(norm_dec(p[1], p[2])[0])) > 7:
             sig = 'C16/single-exponent-form-unrounded'
         else:
@@ -762,12 +769,21 @@ def main(tier, seed):
     valsL = [('long', 2, z) for z in longs]
     run_values(ctx, 'long', valsL, exe)
     fam = float_families(ctx, tier)
+    frng(ctx, 'order').shuffle(fam)      # spread the expensive exponents over the model processes
+    # CPU budget of the extracted model on the float families (seconds, summed over
+    # the parallel model processes): one full job costs 20 ms (SINGLE) to 300 ms (DOUBLE
+    # at the ends of the exponent range)
+    budget = 300 if tier == 'quick' else 5000
+    midx = select_for_model(ctx, fam, budget)
     ctx.rule.append(f'B: LONG: +-(2^e + {{-1,0,1}}), +-(10^e + {{-1,0,1}}), limits, seeded random widths '
                     f'({len(longs)} values); SINGLE and DOUBLE ({len(fam)} values, closed under negation): every '
                     f'power of two and of ten with both neighbours, type limits and form thresholds, subnormal grid, '
                     f'both neighbours of (c + 1/2) 10^k for 7/15/16/17-digit c on an exponent grid, integral and '
-                    f'decimal values of 1..17 digits, seeded random bit patterns')
-    run_values(ctx, 'floats', fam, exe)
+                    f'decimal values of 1..17 digits, seeded random bit patterns.  Every value: real format_number '
+                    f'+ both call sites + READ/INPUT/VAL of the text, judged against the property with exact '
+                    f'rational arithmetic; {len(midx)} of them (constant stride per family, CPU budget {budget} s) '
+                    f'additionally through the extracted model (text tie, reader ties, Coq oracle NumSpec)')
+    run_values(ctx, 'floats', fam, exe, midx)
 
     # ---- V, R: readers on arbitrary texts
     run_val_texts(ctx, tier, exe)
